@@ -42,6 +42,9 @@ def _num(v, default):
 
 
 def execute(case):
+    if "token" in case:
+        from vfw import live
+        return live.execute_live(case, ('C03:live',))
     h = History(case)
     w = h.world
     k = w.kernel
@@ -289,11 +292,22 @@ def _strategy():
 
 def plan(tier, seed):
     n = 1000 if tier == 'quick' else 12000
-    return [{"seed": seed * 100 + i, "n": n} for i in range(16)]
+    return ([{"seed": seed * 100 + i, "n": n} for i in range(14)] +
+            [{"kind": "live", "seed": seed * 100 + 60 + i,
+              "n": 3 if tier == 'quick' else 40} for i in range(2)])
 
 
 def run_shard(spec):
     stats = Stats()
+    if spec.get("kind") == 'live':
+        from vfw import live
+        found = hyp_search(live.strategy(always_restart=True), execute,
+                           stats, spec["seed"], spec["n"],
+                           known=spec["known"], max_rounds=2, shrink=False)
+        res = stats.as_dict()
+        res["violations"] = found
+        res["inconclusive"] = stats.counters.get('live-inconclusive', 0)
+        return res
     found = hyp_search(_strategy(), execute, stats, spec["seed"], spec["n"],
                        known=spec["known"], max_rounds=6)
     res = stats.as_dict()
